@@ -168,8 +168,22 @@ func ViewStates(shape []int, fortran bool, depth int, withT bool) [][]Step {
 	if fortran {
 		root = ref.RootF(shape)
 	}
+	// dedup on the model view AND the kinds of the steps taken: the same logical view reached as slice-of-transpose and
+	// as transpose-of-slice is two different real states (different flags / pending transposes), so they are not merged
+	kinds := func(path []Step, last Step) string {
+		var sb strings.Builder
+		for _, st := range append(append([]Step{}, path...), last) {
+			if st.Op == "T" {
+				sb.WriteString(st.String())
+			} else {
+				sb.WriteString(st.Op)
+			}
+			sb.WriteByte('.')
+		}
+		return sb.String()
+	}
 	key := func(v ref.View) string { return fmt.Sprint(v.Shape, v.Cell) }
-	seen := map[string]bool{key(root): true}
+	seen := map[string]bool{key(root) + "|": true}
 	out := [][]Step{{}}
 	frontier := []qe{{nil, root}}
 	for d := 0; d < depth; d++ {
@@ -217,7 +231,7 @@ func ViewStates(shape []int, fortran bool, depth int, withT bool) [][]Step {
 					}
 					nv = e.view.Permute(p)
 				}
-				k := key(nv)
+				k := key(nv) + "|" + kinds(e.path, st)
 				if seen[k] {
 					continue
 				}
